@@ -3,6 +3,7 @@
 From Coq Require Import List Arith Bool.
 Import ListNotations.
 Require Import PGM.Base.Alg PGM.Base.Sums PGM.Base.Qnn PGM.Model.BP PGM.Model.Query PGM.Proofs.QueryP PGM.Proofs.JTP PGM.Proofs.MleP.
+Require Import PGM.Proofs.JTreeP PGM.Proofs.WeightP PGM.Proofs.MleSepP.
 
 (* any two answers agree on the attributes they share *)
 Theorem C08_answers_agree_on_shared_attributes (R : SF) shape D ncl psi total A1 A2 S x :
@@ -41,7 +42,25 @@ Theorem C08_mle_reproduces (F : SF) shape scope (mu : nat -> tbl F) par :
 Proof. intros Hd Hc. exact (mle_reproduces F shape scope mu par Hd Hc). Qed.
 Print Assumptions C08_mle_reproduces.
 
+(* THE SEPARATORS mle USES ARE THE TREE SEPARATORS.  mle walks self.cliques - the DFS preorder of the junction tree - keeping the set
+   `variables` of everything seen so far, and divides each clique marginal by its projection on  variables & set(cl)  (mle_walk is that
+   loop).  On a tree with one top per attribute (running intersection; what C12 / the checker establish) every emitted set has exactly the
+   elements of scope(cl) /\ scope(parent(cl)), the cliques come in the tree's preorder, and the first set is empty: the potentials mle builds are
+   the factorisation mu_c / (mu_c summed onto the parent separator) that C08_mle_reproduces is about. *)
+Theorem C08_mle_separators_are_tree_separators scope t : (forall a, length (tops scope a [] t) <= 1) ->
+  Forall2 (fun cs cp => fst cs = fst cp /\ parent_sep_spec scope (snd cp) (fst cs) (snd cs)) (snd (mle_walk scope [] t)) (with_parent scope [] t)
+  /\ map fst (snd (mle_walk scope [] t)) = nodes t.
+Proof. intros H. split. exact (mle_separators_are_parent_separators scope t H). exact (mle_walk_order scope t []). Qed.
+Print Assumptions C08_mle_separators_are_tree_separators.
+Theorem C08_good_tree_has_single_tops scope a t p : good scope t -> length (tops scope a p t) <= 1.
+Proof. exact (good_single_top scope a t p). Qed.
+Print Assumptions C08_good_tree_has_single_tops.
+(* non-vacuity: chain [0,1]-[1,2]-[2,3] rooted at the middle clique; walked 1, 0, 2 with separators {}, {1}, {2} *)
+Example C08_mle_walk_example :
+  let scope := fun c => nth c [[0;1];[1;2];[2;3]] [] in
+  snd (mle_walk scope [] (Node 1 [Node 0 []; Node 2 []])) = [(1, []); (0, [1]); (2, [2])].
+Proof. vm_compute. reflexivity. Qed.
+
 (* PARTIAL: for MD the pair (theta, BP theta) is C01_exact.  For RDA / IG the averaged marginals are locally consistent because each
-   summand is a BP output (C01) and consistency is linear (C08_marginalisation_linear); that mle's running set `variables & cl` equals
-   the separator with the tree parent (running intersection + DFS order) is compared per run, as are the stored marginals against
-   the exact joint of the stored parameters. *)
+   summand is a BP output (C01) and consistency is linear (C08_marginalisation_linear).  That self.cliques IS the preorder of the tree
+   (networkx dfs_preorder_nodes) is external; the stored marginals are compared per run with the exact joint of the stored parameters. *)
